@@ -70,7 +70,7 @@ func runC19(r *mc.Run) {
 	defer os.RemoveAll(dir)
 	bin := filepath.Join(dir, "check")
 	cmd := exec.Command("go", "build", "-buildvcs=false", "-o", bin, "github.com/google/go-tdx-guest/tools/check")
-	cmd.Dir = "/repo"
+	cmd.Dir = repoRoot()
 	cmd.Env = append(os.Environ(), "GOFLAGS=-mod=mod", "GOPROXY=off", "GOSUMDB=off", "GOTOOLCHAIN=local")
 	if out, err := cmd.CombinedOutput(); err != nil {
 		r.HarnessError("C19: cannot build tools/check from the current tree: %v\n%s", err, out)
